@@ -1,3 +1,4 @@
+import GramModel.Lemmas.EvalTracesPin
 import GramModel.Lemmas.ArmsTie
 import GramModel.Lemmas.Eval
 import GramModel.Lemmas.DeBruijn
@@ -362,3 +363,8 @@ example : Steps C02_skip_div0 (.lit 5) ∧ isValue (.lit 5) = true :=           
   ⟨Steps.head Step.iteF Steps.refl, rfl⟩
 example : bigEval 2 C02_skip_div0 = some (.lit 5) ∧ 2 ≤ 7 := by decide               -- monotonicity
 example : step C02_div0 = none ∧ isValue C02_div0 = false := by decide               -- stuck
+
+/-- `evaluator.rs::step`: in every arm other than the nine binary operators (C02_step_shape_tie covers those) the calls that matter — sub-step of the function, value test, sub-step of the argument, value test, β by `open(body, 0, argument, 0)`; for a group the step and value test of the FIRST definition and the unfolding built with `index` and `index + 1`; negation and conditional stepping their first component only; a solved hole read through `unsigned_shift(.., 0, shift)` — are, in order, the ones the model `step` performs (regenerated from the source on every run). -/
+def C02_step_traces_tie_stmt : Prop :=
+  tracesOf "step" Generated.evalTraces = tracesOf "step" expectedEvalTraces
+theorem C02_step_traces_tie : C02_step_traces_tie_stmt := by unfold C02_step_traces_tie_stmt; decide +kernel
